@@ -109,3 +109,26 @@ def _(c):
     c.ensures("implies(ur is not None, self.baseunits.expression == ur)", "merged-units")
     c.no_raise()
     c.modifies("self.magnitude", "self.baseunits")
+
+
+# ---- np.linspace / np.logspace between two quantities: the end points are read, never rewritten -------------------------------------
+import numpy as _np
+
+for fname in ("linspace", "logspace"):
+    @contract(f"units/quantity.py::{fname}", ["C07"], name=f"numpy.{fname}[quantities]")
+    def _(c, fname=fname):
+        c.bound = "three grid points; end points in the same and in different units, with and without uncertainty"
+        for ua, ub, f in [("m", "km", 1000.0), ("km", "m", 0.001), ("m", "m", 1.0), ("J", "erg", 1e-7)]:
+            def pre(bd, ua=ua, ub=ub, f=f):
+                ea, eb = bd.real("ea"), bd.real("eb")
+                a = bd.new(Q, bd.real("x"), ua, abse=ea)
+                b = bd.new(Q, bd.real("y"), ub, abse=eb)
+                return dict(args=[a, b, 3], env=dict(qa=a, qb=b, ea=ea, eb=eb, x=bd.getattr(bd.getattr(a, "magnitude"), "value"), y=bd.getattr(bd.getattr(b, "magnitude"), "value"), f=f, ua=ua))
+            c.scenario(f"{ua}..{ub}", pre)
+        c.requires("ea >= 0 and eb >= 0")
+        c.ensures("obs(qa) == old(obs(qa)) and obs(qb) == old(obs(qb))", "end-points-report-the-same")
+        c.ensures("result.baseunits.expression == ua and len([v for v in result.magnitude.value]) == 3", "grid-in-the-units-of-the-first-end-point")
+        if fname == "linspace":
+            c.ensures("(lambda g: near(g[0], x) and near(g[2], y * f) and near(g[1] * 2, x + y * f))([v for v in result.magnitude.value])", "evenly-spaced-between-the-end-points")
+        c.no_raise()
+        c.modifies()
